@@ -318,7 +318,7 @@ def check_signal_table(ctx):
             installed[sig] = (name, e)
     flag_setters = set()
     for f in prog.functions.values():
-        if f.cls == 'SubprocessSet' and not any(True for _ in f.events('call')):
+        if f.cls == 'SubprocessSet':            # (what else the handler does is C07.W1's business)
             for e in f.events('asg'):
                 if is_field_name(e['l'], 'SubprocessSet::interrupted_') and f.params:
                     flag_setters.add(f.id)
